@@ -15,7 +15,6 @@ use futures::{select, FutureExt, StreamExt};
 use parking_lot::Mutex;
 
 use std::collections::HashMap;
-use std::io::ErrorKind;
 use std::pin::Pin;
 use std::sync::Arc;
 
@@ -172,11 +171,10 @@ impl SocketSend for PubSocket {
                     match res {
                         Ok(()) => {}
                         Err(ZmqError::Codec(CodecError::Io(e))) => {
-                            if e.kind() == ErrorKind::BrokenPipe {
-                                dead_peers.push(subscriber.key().clone());
-                            } else {
-                                log::error!("Error receiving message: {:?}", e);
-                            }
+                            // Whatever the kind (EPIPE, ECONNRESET after an RST, ETIMEDOUT, ...),
+                            // a write that failed means this connection is dead.
+                            log::debug!("Error receiving message: {:?}", e);
+                            dead_peers.push(subscriber.key().clone());
                         }
                         Err(ZmqError::BufferFull(_)) => {
                             // ignore silently. https://rfc.zeromq.org/spec/29/ says:
